@@ -125,6 +125,149 @@ def find_mutations(mod):
     return found, shared
 
 
+NO_COPY_CALLS = {"asarray", "asanyarray", "ascontiguousarray", "asfortranarray", "asfarray", "atleast_1d", "atleast_2d", "atleast_3d",
+                 "squeeze", "ravel", "reshape", "transpose", "swapaxes", "real", "imag", "diagonal"}
+VIEW_ATTRS = {"T", "real", "imag", "flat"}
+VIEW_METHODS = {"reshape", "ravel", "view", "squeeze", "transpose", "swapaxes", "diagonal"}
+CONTAINER_MUTATORS = INPLACE_METHODS | {"append", "extend", "insert", "pop", "remove", "clear", "reverse", "update", "setdefault", "popitem"}
+
+
+def find_argument_mutations(mod):
+    """in-place changes of a caller's argument: a store into / augmented assignment of / in-place method on a parameter or on a
+    value that may share its memory (asarray & co. do not copy an array that already has the requested type; slices, .T,
+    reshape, ravel are views).  A bare parameter that is augmented (`p *= 2`) counts only when the function also treats it as
+    a sequence (subscripts it, takes its len / shape, hands it to asarray): for a number that statement rebinds a local name.
+    -> [(function name, node, description)]"""
+    found = []
+
+    def functions():
+        for name, fn in mod.functions.items():
+            yield name, fn, False
+        for cname, cls in getattr(mod, "classes", {}).items():
+            for node in cls.body:
+                if isinstance(node, ast.FunctionDef):
+                    yield "%s.%s" % (cname, node.name), node, True
+    for fname, fn, is_method in functions():
+        a = fn.args
+        params = [x.arg for x in list(getattr(a, "posonlyargs", [])) + list(a.args) + list(a.kwonlyargs)]
+        if is_method and params and not any(isinstance(d, ast.Name) and d.id == "staticmethod" for d in fn.decorator_list):
+            params = params[1:]
+        if not params:
+            continue
+        np_alias = getattr(mod, "np_alias", {"n", "np", "numpy"})
+        tracked = {p: (p, "param") for p in params}       # name -> (parameter, how it is known to be an array)
+        seq_evidence = set()
+        for n_ in ast.walk(fn):
+            if isinstance(n_, ast.Subscript) and isinstance(n_.value, ast.Name) and n_.value.id in params:
+                seq_evidence.add(n_.value.id)
+            if isinstance(n_, ast.Call):
+                f_ = n_.func
+                if isinstance(f_, ast.Name) and f_.id == "len" and n_.args and isinstance(n_.args[0], ast.Name) and n_.args[0].id in params:
+                    seq_evidence.add(n_.args[0].id)
+                if isinstance(f_, ast.Attribute) and isinstance(f_.value, ast.Name) and f_.value.id in np_alias and f_.attr in NO_COPY_CALLS | {"array", "dot"} \
+                        and n_.args and isinstance(n_.args[0], ast.Name) and n_.args[0].id in params:
+                    seq_evidence.add(n_.args[0].id)
+            if isinstance(n_, ast.Attribute) and isinstance(n_.value, ast.Name) and n_.value.id in params and n_.attr in ("shape", "T", "ndim", "dtype", "size"):
+                seq_evidence.add(n_.value.id)
+
+        def alias_of(e):
+            """(parameter, kind) when the value of e may share memory with a parameter"""
+            if isinstance(e, ast.Name):
+                return tracked.get(e.id)
+            if isinstance(e, ast.Call):
+                f_ = e.func
+                if isinstance(f_, ast.Attribute) and isinstance(f_.value, ast.Name) and f_.value.id in np_alias:
+                    if f_.attr in NO_COPY_CALLS and e.args:
+                        src = alias_of(e.args[0])
+                        return (src[0], "array") if src else None
+                    if f_.attr == "array" and e.args and any(k.arg == "copy" and isinstance(k.value, ast.Constant) and k.value.value is False for k in e.keywords):
+                        src = alias_of(e.args[0])
+                        return (src[0], "array") if src else None
+                    return None
+                if isinstance(f_, ast.Attribute) and f_.attr in VIEW_METHODS:
+                    src = alias_of(f_.value)
+                    return (src[0], "array") if src else None
+                return None
+            if isinstance(e, ast.Attribute) and e.attr in VIEW_ATTRS:
+                src = alias_of(e.value)
+                return (src[0], "array") if src else None
+            if isinstance(e, ast.Subscript) and _is_view_subscript(e):
+                src = alias_of(e.value)
+                return (src[0], "array") if src else None
+            return None
+
+        def is_array(name):
+            par, kind = tracked[name]
+            return kind == "array" or par in seq_evidence
+
+        def visit(stmts, top):
+            for st in stmts:
+                # mutation sites first (the statement may also rebind)
+                for n_ in ([st] if isinstance(st, (ast.Assign, ast.AugAssign, ast.Delete, ast.Expr)) else []):
+                    targets = n_.targets if isinstance(n_, (ast.Assign, ast.Delete)) else [n_.target] if isinstance(n_, ast.AugAssign) else []
+                    for t in targets:
+                        base = t
+                        while isinstance(base, (ast.Subscript, ast.Attribute)) and not (isinstance(base, ast.Attribute) and base.attr not in VIEW_ATTRS):
+                            base = base.value
+                        if isinstance(t, ast.Subscript) and isinstance(base, ast.Name) and base.id in tracked:
+                            found.append((fname, n_, "`%s` stores into the caller's argument `%s`%s" % (
+                                core.unparse(n_)[:60], tracked[base.id][0], "" if base.id == tracked[base.id][0] else " (through `%s`, which may share its memory)" % base.id)))
+                        elif isinstance(n_, ast.AugAssign) and isinstance(t, ast.Name) and t.id in tracked and is_array(t.id):
+                            found.append((fname, n_, "`%s` updates the caller's argument `%s` in place%s" % (
+                                core.unparse(n_)[:60], tracked[t.id][0], "" if t.id == tracked[t.id][0] else " (`%s` may share its memory: asarray / a view does not copy)" % t.id)))
+                for n_ in ast.walk(st) if not isinstance(st, (ast.FunctionDef, ast.ClassDef)) else []:
+                    if isinstance(n_, ast.Call):
+                        f_ = n_.func
+                        if isinstance(f_, ast.Attribute) and f_.attr == "partition" and n_.args and isinstance(n_.args[0], ast.Constant) \
+                                and isinstance(n_.args[0].value, str):
+                            continue            # str.partition(separator) returns a tuple; ndarray.partition(kth) sorts in place
+                        if isinstance(f_, ast.Attribute) and f_.attr in CONTAINER_MUTATORS and isinstance(f_.value, ast.Name) and f_.value.id in tracked \
+                                and (f_.attr in INPLACE_METHODS or tracked[f_.value.id][0] in seq_evidence or tracked[f_.value.id][1] == "array"):
+                            found.append((fname, n_, "`%s` changes the caller's argument `%s` in place" % (core.unparse(n_)[:60], tracked[f_.value.id][0])))
+                        for k in n_.keywords:
+                            if k.arg == "out" and isinstance(k.value, ast.Name) and k.value.id in tracked:
+                                found.append((fname, n_, "`%s` writes its result into the caller's argument `%s`" % (core.unparse(n_)[:60], tracked[k.value.id][0])))
+                # bindings
+                if isinstance(st, ast.Assign) and len(st.targets) == 1 and isinstance(st.targets[0], ast.Name):
+                    src = alias_of(st.value)
+                    nm = st.targets[0].id
+                    if src:
+                        tracked[nm] = src
+                    elif top and nm in tracked:
+                        del tracked[nm]            # rebound to a fresh value in straight-line code
+                elif isinstance(st, (ast.Assign,)) and len(st.targets) == 1 and isinstance(st.targets[0], (ast.Tuple, ast.List)) \
+                        and isinstance(st.value, (ast.Tuple, ast.List)) and len(st.value.elts) == len(st.targets[0].elts):
+                    for t_, v_ in zip(st.targets[0].elts, st.value.elts):
+                        if isinstance(t_, ast.Name):
+                            src = alias_of(v_)
+                            if src:
+                                tracked[t_.id] = src
+                            elif top and t_.id in tracked:
+                                del tracked[t_.id]
+                for field in ("body", "orelse", "finalbody"):
+                    sub = getattr(st, field, None)
+                    if isinstance(sub, list) and sub and isinstance(sub[0], ast.stmt) and not isinstance(st, (ast.FunctionDef, ast.ClassDef)):
+                        visit(sub, False)
+                for h in getattr(st, "handlers", []) or []:
+                    visit(h.body, False)
+        visit(fn.body, True)
+    return found
+
+
+def check_arguments(ctx, pid, mod, functions=None):
+    """rule `argmut`: an API function does not change its caller's arguments"""
+    ctx.rule("argmut", "no in-place change of a caller's argument (stores, augmented assignment, in-place methods on a parameter or on an array that may share its memory)")
+    n = 0
+    for fname, node, why in find_argument_mutations(mod):
+        if functions is not None and fname.split(".")[-1] not in functions and fname not in functions:
+            continue
+        n += 1
+        ctx.fail("%s:argmut:%s:%s" % (pid, mod.rel, fname), why + ": the caller's data is different after the call, so a second use of the same array gives another result", core.loc(mod, node))
+    if not n:
+        ctx.ok("%s:argmut:%s" % (pid, mod.rel), sample={"module": mod.rel})
+    return n
+
+
 def check(ctx, pid, mod, functions=None):
     """rule `alias`: no in-place mutation of shared values in the module (optionally only in the named functions
     and whatever they call)"""
@@ -159,3 +302,15 @@ def selfcheck():
     found, _ = find_mutations(m)
     if len(found) != 3:
         raise core.AnalysisError("positive example: the alias rule matched %d of 3 planted sites" % len(found))
+    p = os.path.join(core.VERIF, "selftest", "positive", "argument_mutation.py")
+    if not os.path.exists(p):
+        raise core.AnalysisError("positive example selftest/positive/argument_mutation.py is missing")
+    m = _M()
+    m.rel = "selftest/positive/argument_mutation.py"
+    m.tree = ast.parse(open(p).read())
+    m.functions = {n.name: n for n in m.tree.body if isinstance(n, ast.FunctionDef)}
+    m.classes = {}
+    m.np_alias = {"n"}
+    hits = sorted(f for f, _n, _w in find_argument_mutations(m))
+    if hits != ["planted1", "planted2", "planted3", "planted4"]:
+        raise core.AnalysisError("positive example: the argument-mutation rule matched %s, not the four planted sites" % hits)
